@@ -437,6 +437,7 @@ impl<'w, 'k, W: Write> Struct<'w, 'k, W> {
     where
         T: ?Sized + Serialize,
     {
+        let written = self.children.len();
         let ser = ContentSerializer {
             writer: &mut self.children,
             level: self.ser.ser.level,
@@ -452,15 +453,22 @@ impl<'w, 'k, W: Write> Struct<'w, 'k, W> {
             // Text was written so we don't need to indent next field
             self.write_indent = false;
         } else if key == VALUE_KEY {
-            // If element was written then we need to indent next field unless it is a text field
-            self.write_indent = value.serialize(ser)?.allow_indent();
+            // If element was written then we need to indent next field unless it is a text field.
+            // A value that is not represented in XML (a unit) changes nothing
+            let result = value.serialize(ser)?;
+            if result != WriteResult::Nothing {
+                self.write_indent = result.allow_indent();
+            }
         } else {
             value.serialize(ElementSerializer {
                 key: XmlName::try_from(key)?,
                 ser,
             })?;
-            // Element was written so we need to indent next field unless it is a text field
-            self.write_indent = true;
+            // Element was written so we need to indent next field unless it is a text field.
+            // A field that wrote nothing (an empty sequence) changes nothing
+            if self.children.len() != written {
+                self.write_indent = true;
+            }
         }
         Ok(())
     }
